@@ -7,7 +7,7 @@ use crate::verif_kani_lora_phy_mock::*;
 //@bounds all 8 SF x 10 BW x 4 CR, any frequency >= 400 MHz: decision of create_modulation_params and the LDRO byte of SetModulationParam
 //@encodes Lr1110::create_modulation_params, Lr1110::set_modulation_params, lr1110 bandwidth_value/spreading_factor_value
 #[kani::proof]
-#[kani::unwind(12)]
+#[kani::unwind(26)]
 fn ldro_rule_lr1110() {
     let cfg = Config { pa_selection: PaSelection::Hp, dio_as_rf_switch: None, tcxo_ctrl: None, use_dcdc: kani::any(), rx_boost: kani::any() };
     let mut r = Lr1110::new(MockSpi::new(), MockIv::new(), cfg);
